@@ -50,6 +50,12 @@ def gen_history(rng):
         "make": rng.choice(("newchannel_local", "newchannel_remote")),
         # the closing side itself receives by callback (its own close must still complete: waitclose there returns)
         "closer_has_callback": how in ("close", "close_error", "end_of_exec") and rng.random() < 0.3,
+        # the conversation goes both ways: the closing side has itself received something on this channel (and nothing
+        # else arrives on its gateway afterwards) before it sends its items and closes / drops
+        "closer_received_first": rng.random() < 0.35,
+        # an attempt to close with an error value that cannot be sent (refused with an exception) comes first: it must
+        # leave the channel as it was, the real close that follows works as always
+        "failed_error_close_first": how == "close" and rng.random() < 0.3,
     }
 
 
@@ -148,15 +154,37 @@ def run_history(res: Result, lab, h, label, hid):
         t.start()
 
     closer_log = {}
+    hello_err: list = []
 
     def closing_side():
         lab.sched.set_role("closer")
         ch = closer_holder.pop()
+        hello: list = []
         if how == "drop_with_callback" or h.get("closer_has_callback"):
-            ch.setcallback(lambda x: None)
+            ch.setcallback(hello.append)
+        if h.get("closer_received_first"):
+            try:
+                peer.send(("hello", hid))
+                if ch._items is not None:
+                    hello.append(ch.receive(6))
+                else:
+                    t_end = time.monotonic() + 6
+                    while not hello and time.monotonic() < t_end:
+                        time.sleep(0.001)
+            except BaseException as e:  # noqa
+                hello_err.append(f"{type(e).__name__}: {e}")
+            if hello[:1] != [("hello", hid)]:
+                hello_err.append(f"got {hello!r}")
         for s in range(k):
             ch.send((hid, s, pad))
         if how == "close":
+            if h.get("failed_error_close_first"):
+                bad = ("undecodable name \udcff", ValueError("an exception object"))[hid % 2]
+                try:
+                    ch.close(bad)
+                    hello_err.append(f"close({bad!r}) was accepted")
+                except BaseException:  # noqa
+                    pass
             ch.close()
         elif how == "close_error":
             ch.close(f"deliberate error {hid}")
@@ -255,6 +283,8 @@ def run_history(res: Result, lab, h, label, hid):
                 res.violation(m("peer-not-closed-after-waitclose"), f"{label}: isclosed()={w['isclosed']}")
             if w["send"] != "OSError":
                 res.violation(m("peer-send-after-waitclose"), f"{label}: send -> {w['send']}")
+    if hello_err:
+        res.violation(m("closing-side-did-not-get-the-peers-item"), f"{label}: {hello_err[0]}")
     if closer_log:
         if closer_log.get("isclosed") is not True or closer_log.get("send") != "OSError" or \
                 closer_log.get("waitclose0") != "returned" or closer_log.get("second_close") != "silent":
